@@ -205,4 +205,97 @@ ComplLemma(T) ==
 PerfectTable(T) == (T[2] = 0 /\ T[3] = 0) => \A m \in CatWithPerfect : LET e == Cat(m, T) IN IsUndef(e) \/ (IsQ(e) /\ e.v = CatPerfect(m))
 Bounds01(T) == \A m \in {"a", "b", "c", "d", "baserate", "fcstrate", "pc", "hit", "miss", "fa", "far", "threat"} :
                   LET e == Cat(m, T) IN IsUndef(e) \/ (Ge(e.v, Zero) /\ Le(e.v, One))
+
+---------------------------------------------------------------------------
+(* C08: probabilistic scores.  pe = sequence of <<p, e>>: forecast probability of the event and its outcome (0/1) *)
+PP(pe) == [k \in DOMAIN pe |-> pe[k][1]]
+EE(pe) == [k \in DOMAIN pe |-> pe[k][2]]
+\* ten probability bins [j/10, (j+1)/10), the last one closed at 1
+ProbBin(p) == IF Ge(p, One) THEN 10 ELSE FloorR(Mul(p, R(10))) + 1
+InBin(pe, b) == {k \in DOMAIN pe : ProbBin(pe[k][1]) = b}
+MeanOver(pe, S, col) == Div(SumSeq([m \in DOMAIN SortInts(S) |-> pe[SortInts(S)[m]][col]]), R(Cardinality(S)))
+EbarBin(pe, k) == MeanOver(pe, InBin(pe, ProbBin(pe[k][1])), 2)
+Ebar(pe) == MeanSeq(EE(pe))
+BsV(pe)    == MeanSeq([k \in DOMAIN pe |-> Sq(Sub(pe[k][1], pe[k][2]))])
+BsUncV(pe) == Mul(Ebar(pe), Sub(One, Ebar(pe)))
+BsRelV(pe) == MeanSeq([k \in DOMAIN pe |-> Sq(Sub(pe[k][1], EbarBin(pe, k)))])
+BsResV(pe) == MeanSeq([k \in DOMAIN pe |-> Sq(Sub(EbarBin(pe, k), Ebar(pe)))])
+\* (the `threshold` output -- mean stored cumulative probability -- is not an event score and is not listed here)
+ProbMetrics == {"bs", "bsunc", "bsrel", "bsres", "bss", "bssrel", "bssres", "ign0", "spherical", "marginalratio"}
+Prob(name, pe) ==
+  IF Len(pe) = 0 THEN Undef
+  ELSE LET n == Len(pe)  unc == BsUncV(pe) IN
+  CASE name = "bs"     -> Q(BsV(pe))
+    [] name = "bsunc"  -> Q(unc)
+    [] name = "bsrel"  -> Q(BsRelV(pe))
+    [] name = "bsres"  -> Q(BsResV(pe))
+    [] name = "bss"    -> IF unc = Zero THEN Undef ELSE Q(Div(Sub(unc, BsV(pe)), unc))
+    [] name = "bssrel" -> IF unc = Zero THEN Undef ELSE Q(Div(BsRelV(pe), unc))
+    [] name = "bssres" -> IF unc = Zero THEN Undef ELSE Q(Div(BsResV(pe), unc))
+    [] name = "threshold" -> Q(MeanSeq(PP(pe)))
+    [] name = "marginalratio" -> IF MeanSeq(PP(pe)) = Zero THEN Undef ELSE Q(Div(Ebar(pe), MeanSeq(PP(pe))))
+    \* binary ignorance: -log2 of the probability given to what happened (infinite if a certain forecast fails)
+    [] name = "ign0"   -> DivE(SumE([k \in DOMAIN pe |-> SubE(Q(Zero), Log2E(Q(IF pe[k][2] = One THEN pe[k][1] ELSE Sub(One, pe[k][1]))))]), Q(R(n)))
+    \* spherical score: P(outcome) / sqrt(p^2 + (1-p)^2)
+    [] name = "spherical" -> DivE(SumE([k \in DOMAIN pe |->
+                                  DivE(Q(IF pe[k][2] = One THEN pe[k][1] ELSE Sub(One, pe[k][1])),
+                                       SqrtE(Q(Add(Sq(pe[k][1]), Sq(Sub(One, pe[k][1]))))))]), Q(R(n)))
+
+\* lemmas
+OneValuePerBin(pe) == \A j, k \in DOMAIN pe : ProbBin(pe[j][1]) = ProbBin(pe[k][1]) => pe[j][1] = pe[k][1]
+BrierDecomposition(pe) == (Len(pe) > 0 /\ OneValuePerBin(pe)) => BsV(pe) = Add(Sub(BsRelV(pe), BsResV(pe)), BsUncV(pe))
+BrierComplement(pe) == Len(pe) > 0 => BsV([k \in DOMAIN pe |-> <<Sub(One, pe[k][1]), Sub(One, pe[k][2])>>]) = BsV(pe)
+BrierRange(pe) == Len(pe) > 0 => /\ Ge(BsV(pe), Zero) /\ Le(BsV(pe), One) /\ Ge(BsRelV(pe), Zero) /\ Ge(BsResV(pe), Zero)
+                                 /\ Le(BsResV(pe), BsUncV(pe)) /\ Le(BsUncV(pe), Frac(1, 4))
+EveryProbInOneBin(p) == (Ge(p, Zero) /\ Le(p, One)) => ProbBin(p) \in 1..10
+
+\* the (probability, outcome) pairs of a case list for an event: cases are <<o, cdf(t), cdf(u)>> (below*/above* use the
+\* first threshold only); only cases in which the observation and the needed cumulative probabilities are present take part
+EventPE(cases, bt, t, u) ==
+  LET ok(x) == ~IsNaN(x[1]) /\ ~IsNaN(x[2]) /\ (bt \in WithinTypes => ~IsNaN(x[3]))
+      keep == SelectSeq(cases, ok)
+  IN  [k \in DOMAIN keep |-> <<ProbOfEvent(bt, keep[k][2], keep[k][3]), IF InEvent(bt, keep[k][1], t, u) THEN One ELSE Zero>>]
+
+\* ---- quantile forecasts: cases are <<o, f, xLo, xHi>> for the levels <<lo, hi>> ----
+QuantileScore(ox, tau) ==        \* ox: seq of <<o, x>> ; pinball loss
+  IF Len(ox) = 0 THEN Undef
+  ELSE Q(MeanSeq([k \in DOMAIN ox |-> Mul(Sub(ox[k][1], ox[k][2]), Sub(tau, IF Lt(ox[k][1], ox[k][2]) THEN One ELSE Zero))]))
+QuantileCoverage(cs, bt) ==      \* fraction of cases with o inside the quantile interval, ends per bin type
+  IF Len(cs) = 0 THEN Undef
+  ELSE Q(Frac(Cardinality({k \in DOMAIN cs : InEvent(bt, cs[k][1], cs[k][3], cs[k][4])}), Len(cs)))
+SpreadV(cs) == MeanSeq([k \in DOMAIN cs |-> Sub(cs[k][4], cs[k][3])])
+SpreadSkillRatio(cs, lo, hi) ==
+  IF Len(cs) = 0 THEN Undef
+  ELSE LET mse == MeanSeq([k \in DOMAIN cs |-> Sq(Sub(cs[k][1], cs[k][2]))]) IN
+       IF mse = Zero THEN Undef
+       ELSE DivE(DivE(Q(SpreadV(cs)), DivE(SubE(NormPpfE(Q(hi)), NormPpfE(Q(lo))), Q(R(2)))), SqrtE(Q(mse)))
+
+\* ---- ensembles: event probability and quantiles when the file does not store them ----
+Members(ens) == SelectSeq(ens, LAMBDA m : ~IsNaN(m))
+EnsProb(ens, t) == IF Members(ens) = <<>> THEN NaN
+                   ELSE Frac(Cardinality({k \in DOMAIN Members(ens) : Le(Members(ens)[k], t)}), Len(Members(ens)))
+\* envelope for a quantile taken from an ensemble (the interpolation rule is not documented):
+QuantileEnvelopeOk(ens, level, x) ==
+  IF HasNaN(ens) \/ ens = <<>> THEN IsNaN(x)
+  ELSE /\ Ge(x, MinSeq(ens)) /\ Le(x, MaxSeq(ens))
+       /\ (Len(ens) = 1 => x = ens[1])
+
+\* ---- PIT statistics: ten bins [j/10,(j+1)/10), last closed ----
+PitCounts(pit) == [b \in 1..10 |-> Cardinality({k \in DOMAIN pit : ProbBin(pit[k]) = b})]
+PitHistDev(pit) ==
+  IF Len(pit) = 0 THEN Undef
+  ELSE LET n == Len(pit)  c == PitCounts(pit)
+           D2 == Div(SumSeq([b \in 1..10 |-> Sq(Sub(Frac(c[b], n), Frac(1, 10)))]), R(10))
+           D02 == Div(Sub(One, Frac(1, 10)), R(n * 10))
+       IN  DivE(SqrtE(Q(D2)), SqrtE(Q(D02)))
+\* mean first / second difference quotient of the relative histogram over the bin centres (spacing 1/10)
+PitHistSlope(pit) ==
+  IF Len(pit) = 0 THEN Undef
+  ELSE LET n == Len(pit)  c == PitCounts(pit) IN
+       Q(MeanSeq([b \in 1..9 |-> Mul(Sub(Frac(c[b + 1], n), Frac(c[b], n)), R(10))]))
+PitHistShape(pit) ==
+  IF Len(pit) = 0 THEN Undef
+  ELSE LET n == Len(pit)  c == PitCounts(pit)
+           d == [b \in 1..9 |-> Mul(Sub(Frac(c[b + 1], n), Frac(c[b], n)), R(10))] IN
+       Q(MeanSeq([b \in 1..8 |-> Mul(Sub(d[b + 1], d[b]), R(10))]))
 =============================================================================
